@@ -49,20 +49,44 @@ type KnownFinding struct {
 	Commit   string `json:"commit,omitempty"`
 }
 
+// loadKnown parses /verif/known_findings.txt. Lines:
+//
+//	known: property=<Cxx> id=<finding id> :: <what fails, identified by input / call site / history>
+//	fixed: property=<Cxx> <commit> <what failed>
+//
+// Only "known:" lines suppress anything (and only the exact witness predicate the
+// harness attaches to that id); "fixed:" lines are a record and suppress nothing.
 func loadKnown() (map[string]KnownFinding, error) {
-	b, err := os.ReadFile(filepath.Join(verifDir(), "known_findings.json"))
+	b, err := os.ReadFile(filepath.Join(verifDir(), "known_findings.txt"))
 	if err != nil {
 		if os.IsNotExist(err) {
 			return map[string]KnownFinding{}, nil
 		}
 		return nil, err
 	}
-	var l []KnownFinding
-	if err := json.Unmarshal(b, &l); err != nil {
-		return nil, err
-	}
 	m := map[string]KnownFinding{}
-	for _, k := range l {
+	for _, line := range strings.Split(string(b), "\n") {
+		line = strings.TrimSpace(line)
+		if !strings.HasPrefix(line, "known:") {
+			continue
+		}
+		rest := strings.TrimSpace(strings.TrimPrefix(line, "known:"))
+		parts := strings.SplitN(rest, "::", 2)
+		if len(parts) != 2 {
+			return nil, fmt.Errorf("malformed known-findings line: %s", line)
+		}
+		k := KnownFinding{Status: "open", What: strings.TrimSpace(parts[1])}
+		for _, f := range strings.Fields(parts[0]) {
+			if strings.HasPrefix(f, "property=") {
+				k.Property = strings.TrimPrefix(f, "property=")
+			}
+			if strings.HasPrefix(f, "id=") {
+				k.ID = strings.TrimPrefix(f, "id=")
+			}
+		}
+		if k.ID == "" || k.Property == "" {
+			return nil, fmt.Errorf("malformed known-findings line: %s", line)
+		}
 		m[k.ID] = k
 	}
 	return m, nil
